@@ -8,7 +8,8 @@
 (*            chunks, order of the PRNT rows.                              *)
 (*   Group 2: optional META / unknown chunks, object format of services,   *)
 (*            narrower legacy numeric encodings, PROP chunks that end      *)
-(*            after the name or carry an unknown type id, compression.     *)
+(*            after the name or carry an unknown type id, compression, a   *)
+(*            declared class without instances (with / without PROP).     *)
 (* Sibling order is part of the logical forest (it is the order of         *)
 (* appearance in PRNT), so PRNT orders are those that keep siblings in     *)
 (* order: parents-first, children-first, and by depth.                     *)
@@ -122,22 +123,33 @@ MethodOptions == {<<"none">>, <<"lz4">>, <<"zstd">>, <<"lz4", "none", "zstd", "z
 VARIABLE case
 vars == <<case>>
 
-Case(ids, refs, co, layout, prnt, narrowI, narrowF, extra, opt, service, methods) ==
+\* a class the file declares but has no instance of (Instance Count 0), with or without a PROP chunk whose
+\* value array is therefore empty; its INST chunk follows the last INST chunk, its PROP chunk ends the body
+EmptyClass == {"none", "inst", "inst+prop"}
+EmptyClassId == 77
+WithEmptyClass(ch, e) ==
+    IF e = "none" THEN ch
+    ELSE LET p == CHOOSE j \in 1..Len(ch) : ch[j].k = "INST" /\ \A i \in (j + 1)..Len(ch) : ch[i].k # "INST"
+         IN SubSeq(ch, 1, p) \o <<[k |-> "INST", class |-> NC]>> \o SubSeq(ch, p + 1, Len(ch))
+            \o (IF e = "inst+prop" THEN <<[k |-> "PROP", class |-> NC, prop |-> "Name"]>> ELSE <<>>)
+
+Case(ids, refs, co, layout, prnt, narrowI, narrowF, extra, opt, service, methods, empty) ==
     [forest |-> Forest, expect |-> Expect,
-     classes |-> [i \in 1..NC |-> [name |-> ClassNames[i], id |-> ids[i], service |-> (service /\ IsService(ClassNames[i]))]],
+     classes |-> [i \in 1..NC |-> [name |-> ClassNames[i], id |-> ids[i], service |-> (service /\ IsService(ClassNames[i]))]]
+                 \o (IF empty = "none" THEN <<>> ELSE <<[name |-> "Decal", id |-> EmptyClassId, service |-> FALSE]>>),
      referents |-> refs,
-     chunks |-> WithOptional(WithExtras(Body(co, IF extra = "none" THEN layout ELSE "grouped", narrowI, narrowF), extra), opt),
+     chunks |-> WithEmptyClass(WithOptional(WithExtras(Body(co, IF extra = "none" THEN layout ELSE "grouped", narrowI, narrowF), extra), opt), empty),
      prnt |-> prnt,
      methods |-> methods]
 
 Init ==
     IF Group = 1
     THEN \E ids \in ClassIdOptions, refs \in ReferentOptions, co \in ClassOrders, layout \in Layouts, prnt \in PrntOptions :
-            case = Case(ids, refs, co, layout, prnt, FALSE, FALSE, "none", "none", TRUE, <<"none">>)
+            case = Case(ids, refs, co, layout, prnt, FALSE, FALSE, "none", "none", TRUE, <<"none">>, "none")
     ELSE \E narrowI \in BOOLEAN, narrowF \in BOOLEAN, extra \in Extras, opt \in Optional, service \in BOOLEAN,
-            methods \in MethodOptions, refs \in ReferentOptions :
+            methods \in MethodOptions, refs \in ReferentOptions, empty \in EmptyClass :
             case = Case([i \in 1..NC |-> 40 - 3 * i], refs, [i \in 1..NC |-> NC + 1 - i], "grouped",
-                        Post(Forest.roots), narrowI, narrowF, extra, opt, service, methods)
+                        Post(Forest.roots), narrowI, narrowF, extra, opt, service, methods, empty)
 
 Next == UNCHANGED case
 Spec == Init /\ [][Next]_vars
@@ -148,7 +160,7 @@ WellFormedCase ==
     /\ \A i \in 1..NC : Cardinality({j \in 1..Len(ch) : ch[j].k = "INST" /\ ch[j].class = i - 1}) = 1
     /\ \A j \in 1..Len(ch) : ch[j].k \in {"PROP", "PROPTRUNC", "PROPUNK"} =>
           \E i \in 1..(j - 1) : ch[i].k = "INST" /\ ch[i].class = ch[j].class
-    /\ \A i, j \in 1..NC : i # j => case.classes[i].id # case.classes[j].id
+    /\ \A i, j \in 1..Len(case.classes) : i # j => case.classes[i].id # case.classes[j].id
     /\ \A i, j \in 1..N : i # j => case.referents[i] # case.referents[j]
     /\ Len(case.prnt) = N /\ {case.prnt[i] : i \in 1..N} = 1..N
 
